@@ -213,7 +213,7 @@ def check_objsim(ctx):
                 (findings if hit else violations).append((v, hit[0] if hit else None))
     extra = {}
     if ctx.pid == "C16":
-        extra = {"exhaustive": True, "exhaustive_space": "init function (6) x CPU model selecting the back end (3) x failing allocation index (1,2) x prior handle content class (7, incl. the byte image of another live object) = 252 cells, each enumerated many times; the tail of calls after the failed init is sampled"}
+        extra = {"exhaustive": True, "exhaustive_space": "init function (6) x CPU model selecting the back end (3) x allocation fault (first request, second request, memory exhausted from the first request on) x prior handle content class (7, incl. the byte image of another live object) = 378 cells, each enumerated many times; the tail of calls after the failed init is sampled"}
     if ctx.pid == "C13":
         extra = {"exhaustive": ctx.tier == "thorough", "exhaustive_space": "CPU-model grid (max leaf 7 x feature set 5 x OSXSAVE 2 x XCR0 4 x other sub-leaves 2 x out-of-range policy 2 x leaf-1 ECX 2 = 2240 models; unrelated leaves (2, 4, 5, 6, 0xA, 0xB, 0xD) answer with the values of real parts) x 6 init functions; quick enumerates a seeded third, thorough all of it; junk register/stack contexts are sampled (3 per cell)"}
     if ctx.pid == "C10":
